@@ -55,11 +55,11 @@ Lemma edit_bounded_thm : forall (args : list ins_arg) (a : ins_arg) (e : elem) (
   forallb wf_arg args = true -> wf_arg a = true ->
   d_insert args <= 6 /\ d_append a <= 7 /\ d_extend args <= 8 /\ d_insert_beside args <= 7 /\
   d_replace_with args <= 7 /\ d_wrap = 5 /\ d_unwrap e <= 6 /\ d_clear e decompose <= 4 /\
-  d_set_string e <= 6 /\ d_smooth e <= 6 /\ d_extract = 2 /\ d_decompose = 3 /\ d_new_string = 3.
+  d_set_string e <= 6 /\ d_smooth e <= 6 /\ d_extract = 2 /\ d_decompose e = 3 /\ d_new_string = 3.
 Proof.
   intros args a e b Hl Ha.
   repeat split; [now apply d_insert_wf|now apply d_append_wf|now apply d_extend_wf|now apply d_insert_beside_wf|
-                 now apply d_replace_with_wf|apply d_unwrap_le|apply d_clear_le|apply d_set_string_le|apply d_smooth_le].
+                 now apply d_replace_with_wf|apply d_unwrap_le|apply d_clear_le|apply d_set_string_le|apply d_smooth_le|apply d_decompose_eq].
 Qed.
 
 Lemma parse_bounded_thm : forall deep eqres cfg markup callbacks,
